@@ -7,6 +7,7 @@ mod gen;
 mod ledger;
 mod model;
 mod pairs;
+mod rates;
 mod report;
 
 use std::io::{BufRead, BufWriter, Write};
@@ -92,6 +93,53 @@ fn main() {
                 }
             }
             println!("segments {n}");
+        }
+        "rates-gen" => {
+            let seed: u64 = arg(&args, "--seed").and_then(|s| s.parse().ok()).unwrap_or(1);
+            let n: u64 = arg(&args, "--n").and_then(|s| s.parse().ok()).unwrap_or(100);
+            let out = arg(&args, "--out").expect("--out");
+            let mut w = BufWriter::new(std::fs::File::create(out).unwrap());
+            for k in 0..n {
+                writeln!(w, "{}", serde_json::to_string(&rates::gen_rates_case(seed, k)).unwrap()).unwrap();
+            }
+        }
+        "rowrates" => {
+            let seed: u64 = arg(&args, "--seed").and_then(|s| s.parse().ok()).unwrap_or(1);
+            let n: u64 = arg(&args, "--n").and_then(|s| s.parse().ok()).unwrap_or(100);
+            let out = arg(&args, "--out").expect("--out");
+            let cases: Vec<rates::RowRatesCase> = (0..n).map(|k| rates::gen_rowrates_case(seed, k)).collect();
+            let segs = par_map(&cases, threads, |c| rates::rowrates_segment(c));
+            let mut w = BufWriter::new(std::fs::File::create(out).unwrap());
+            for s in &segs {
+                writeln!(w, "{}", serde_json::to_string(s).unwrap()).unwrap();
+            }
+            println!("rowrate segments {}", segs.len());
+        }
+        "rates-run" => {
+            // --from-mc: the input lines are behaviours emitted by MC_Rates over the window calendar
+            let from_mc = args.iter().any(|a| a == "--from-mc");
+            let inp = arg(&args, "--in").expect("--in");
+            let out = arg(&args, "--out").expect("--out");
+            let scratch = std::path::PathBuf::from(arg(&args, "--scratch").expect("--scratch"));
+            std::fs::create_dir_all(&scratch).unwrap();
+            let mut cases: Vec<rates::RatesCase> = Vec::new();
+            for (n, line) in std::io::BufReader::new(std::fs::File::open(&inp).unwrap()).lines().enumerate() {
+                let line = line.unwrap();
+                if line.trim().is_empty() {
+                    continue;
+                }
+                if from_mc {
+                    cases.push(rates::case_from_model(&serde_json::from_str(&line).unwrap(), n));
+                } else {
+                    cases.push(serde_json::from_str(&line).unwrap());
+                }
+            }
+            let segs = par_map(&cases, threads, |c| rates::rates_segment(c, &scratch));
+            let mut w = BufWriter::new(std::fs::File::create(out).unwrap());
+            for s in &segs {
+                writeln!(w, "{}", serde_json::to_string(s).unwrap()).unwrap();
+            }
+            println!("rate segments {}", segs.len());
         }
         "report-run" => {
             let cases = read_cases(&arg(&args, "--in").expect("--in"));
